@@ -5,7 +5,8 @@
    texts, not from the code. *)
 From Coq Require Import List ZArith Bool.
 From Basyx Require Import model.ConstraintsBase gen.Gen_RefChecks gen.Gen_IntRanges gen.Gen_StrConstraints
-  model.ConstraintsSpec proofs.ConstraintsRegexProofs proofs.ConstraintsRefProofs proofs.ConstraintsStrProofs.
+  model.ConstraintsModel model.ConstraintsSpec proofs.ConstraintsRegexProofs proofs.ConstraintsRefProofs
+  proofs.ConstraintsStrProofs proofs.ConstraintsListProofs.
 Import ListNotations.
 Local Open Scope Z_scope.
 
@@ -142,3 +143,56 @@ Theorem C02_int_ranges : forall z,
   (in_range_UnsignedShort z = true <-> 0 <= z <= 65535) /\
   (in_range_UnsignedByte z = true <-> 0 <= z <= 255).
 Proof. exact int_ranges. Qed.
+
+(* ===== ConstrainedList + Entity (AASd-014) + AssetInformation (AASd-131) + HasSemantics (AASd-118) == *)
+(* model/ConstraintsModel.v part A: state (entity type, globalAssetId, specificAssetId list),
+   resp. for owner OSem (semantic_id present?, supplemental_semantic_id list);
+   operations: append, insert, extend, +=, pop, remove, clear, __setitem__/__delitem__ with int
+   and slice, the list-valued setter (list or one-shot iterator argument), both attribute
+   setters.  [effect] is what the call does when no hook objects; [step] adds the hooks. *)
+
+(* constructors: accepted => well-formed with exactly the given attributes; rejected =>
+   ValueError for an invalid globalAssetId or the class's constraint number, the latter only
+   if the arguments are ill-formed *)
+Theorem C02_list_ctor : forall o t g xs, (o = OSem -> g <> GBad) ->
+  match ctor o t g xs with
+  | (Some s, None) => wf_owner o s /\ s = mkSt t g xs
+  | (None, Some e) =>
+      (e = EValue /\ g = GBad) \/ (e = EAASd (cnum o) /\ (g = GBad \/ ~ wf_owner o (mkSt t g xs)))
+  | _ => False
+  end.
+Proof. exact ctor_spec. Qed.
+
+(* every accepted call on a well-formed object does what the plain list/attribute operation
+   does and yields a well-formed object *)
+Theorem C02_list_accept_wf : forall o s p s' v, wf_owner o s -> step o s p = (s', v) -> is_ok v ->
+  wf_owner o s' /\ effect o s p = inr (s', v).
+Proof. exact step_accept_wf. Qed.
+
+(* every rejected call leaves the object unchanged and raises either the class's constraint
+   number - exactly when carrying the call out would give an ill-formed object - or the
+   IndexError / ValueError / TypeError Python documents for the list operation itself *)
+Theorem C02_list_reject_unchanged : forall o s p s' e, wf_owner o s -> step o s p = (s', Err e) ->
+  s' = s /\
+  ((e = EAASd (cnum o) /\ exists s2 v, effect o s p = inr (s2, v) /\ ~ wf_owner o s2) \/
+   (effect o s p = inl e /\ plain_error o s p e)).
+Proof. exact step_reject_unchanged. Qed.
+
+(* all histories, every order of setter and list operations *)
+Theorem C02_list_history : forall o t g xs s ops, (o = OSem -> g <> GBad) ->
+  ctor o t g xs = (Some s, None) -> wf_owner o (run o s ops).
+Proof. exact ctor_run_wf. Qed.
+
+(* non-vacuity: a self-managed entity that loses its last specificAssetId only after it got a
+   globalAssetId, becomes co-managed only when both are gone; refusals in between *)
+Example C02_list_example :
+  let s0 := mkSt true GNone [0%nat; 1%nat] in
+  map (fun ops => (snd (step OEntity (run OEntity s0 ops) Clear), items (run OEntity s0 (ops ++ [Clear]))))
+      [[]; [SetGaid (GOk 0)]; [SetGaid (GOk 0); Clear; SetType false]; [SetGaid (GOk 0); Clear; SetGaid GNone]]
+  = [(Err (EAASd 14), [0%nat; 1%nat]); (OK, []); (OK, []); (OK, [])]
+  /\ ctor OEntity true GNone [0%nat; 1%nat] = (Some s0, None)
+  /\ etype (run OEntity s0 [SetGaid (GOk 0); Clear; SetType false]) = true
+  /\ etype (run OEntity s0 [SetGaid (GOk 0); Clear; SetGaid GNone; SetType false]) = true
+  /\ etype (run OEntity s0 [Clear; SetSlice None None []; SetGaid (GOk 0); SetList []; SetGaid GNone; SetType false;
+                            SetGaid GNone; IAdd [1%nat]]) = true.
+Proof. vm_compute. repeat split; reflexivity. Qed.
